@@ -56,13 +56,14 @@ def run(p, led, tier):
         "second signal on that path; anergic ⇒ NONE/IGNORE; SHUTDOWN only with CRITICAL; Treg leaves CRITICAL "
         "untouched and lowers any other response the T cell can produce by at most one rank.")
     led.exhaustive = True
-    led.not_decided = ["'inspecting the training window right after training reports no threat' (relational numeric reasoning over means/deviations)"]
+    led.not_decided = ["self-tolerance for training windows whose snapshots differ from each other (train_agent trains from one snapshot repeated; that case is decided, R5)"]
     led.assumptions = ["the baseline check is the oracle of 'current behaviour violates the trained baseline' (its arithmetic is not analysed)",
                        "suppression-rule conditions are arbitrary predicates (A3)"]
     led.rule("C17-R1", "T-cell response table: SELF ⇒ NONE/IGNORE; CONFIRMED/CRITICAL ⇒ violation ∧ second signal; SHUTDOWN only with CRITICAL", 6)
     led.rule("C17-R2", "an anergic watcher answers NONE/IGNORE before anything else", 1)
     led.rule("C17-R3", "every response of the integrated inspect on in-baseline behaviour is NONE/IGNORE, and every threat-bearing response lies on a path with a violated baseline, a responsive watcher and a second signal", 12)
     led.rule("C17-R4", "Treg: CRITICAL is returned unsuppressed and unchanged; any other producible response is lowered by at most one rank", 6)
+    led.rule("C17-R5", "immediately after successful training from a window's fingerprint, that fingerprint violates nothing (self-tolerance), for all values of its statistics", 2)
 
     def member(it, ci, name):
         return it.enum_member(ci, name)
@@ -223,6 +224,69 @@ def run(p, led, tier):
                 led.fail("C17-R4", key, where(dg, dg.node), f"{a} is downgraded to {bad[0]}: more than one step (or upward)")
             else:
                 led.ok("C17-R4", key, where(dg, dg.node), f"{a} → {sorted(outs)}")
+
+    # ---------------- R5: self-tolerance, by affine reasoning over symbolic statistics
+    from ..fdai import LinInterp, Lin, entails
+    thy = p.cls("Thymus", SV + "thymus.py")
+    train = p.find_method(thy, "train")
+    chkm = p.find_method(prof, "check")
+    if train is None:
+        raise AnchorError("Thymus.train not found")
+    for with_canary in (False, True):
+        def go_t(o):
+            it = LinInterp(p, o, real=True)
+
+            def mean(interp, args, kwargs):
+                vals = list(args[0])
+                if vals and all(v is vals[0] or v == vals[0] for v in vals):
+                    return vals[0]
+                return Unknown("mean(" + ", ".join(map(repr, vals[:3])) + ")")
+
+            def stdev(interp, args, kwargs):
+                vals = list(args[0])
+                if vals and all(v is vals[0] or v == vals[0] for v in vals):
+                    return 0
+                return Unknown("stdev(…)")
+            it.ext_stubs["statistics.mean"] = mean
+            it.ext_stubs["statistics.stdev"] = stdev
+            S = {k: Lin.sym(k) for k in ("len_mean", "len_std", "rt_mean", "rt_std", "conf_mean", "conf_std", "error_rate", "canary")}
+            for k in ("len_mean", "len_std", "rt_mean", "rt_std", "conf_mean", "conf_std", "error_rate", "canary"):
+                it.assume(S[k])
+            for k in ("conf_mean", "error_rate", "canary"):
+                it.assume(Lin({}, 1).add(S[k], -1))
+            pep = Obj(pept, dict(agent_id="a1", timestamp=Unknown("ts"), output_length_mean=S["len_mean"], output_length_std=S["len_std"], response_time_mean=S["rt_mean"],
+                                 response_time_std=S["rt_std"], vocabulary_hash="vh", structure_hash="sh", confidence_mean=S["conf_mean"], confidence_std=S["conf_std"],
+                                 error_rate=S["error_rate"], error_types=(), canary_accuracy=(S["canary"] if with_canary else None)))
+            T = it.instantiate(thy, [], {})
+            n = T.fields.get("min_training_samples", 10)
+            n = n if isinstance(n, int) else 10
+            try:
+                out = it.call_fi(train, [T, "a1", [pep] * n], {})
+            except PyRaise as e:
+                return dict(raised=repr(e.exc))
+            profile, result = out
+            if nm(result) != "POSITIVE" or profile is None:
+                return dict(result=nm(result))
+            v = it.call_fi(chkm, [profile, pep], {})
+            return dict(result="POSITIVE", violations=[x if isinstance(x, str) else repr(x) for x in v], n=len(v))
+        try:
+            paths = [r for _, r in explore(go_t, max_paths=5000)]
+        except Imprecise as e:
+            raise AnchorError(f"Thymus.train / BaselineProfile.check could not be interpreted: {e}")
+        key = f"Thymus.train → BaselineProfile.check ▸ same fingerprint, canary {'measured' if with_canary else 'absent'}"
+        pos = [r for r in paths if r.get("result") == "POSITIVE"]
+        bad = [r for r in pos if r["n"] > 0]
+        raised = [r for r in paths if "raised" in r]
+        if raised:
+            led.fail("C17-R5", key, where(train, train.node), f"training raises {raised[0]['raised']}")
+        elif not pos:
+            led.fail("C17-R5", key, where(train, train.node), f"no path trains successfully ({sorted(set(r.get('result') for r in paths))})")
+        elif bad:
+            led.fail("C17-R5", key, where(chkm, chkm.node),
+                     f"{len(bad)} of {len(pos)} successful-training paths: the fingerprint the profile was trained from violates it ({bad[0]['n']} violation(s))",
+                     witness="train on a window whose canary pass-rate is 40 %: training is POSITIVE, inspecting the same window is CRITICAL/SHUTDOWN")
+        else:
+            led.ok("C17-R5", key, where(chkm, chkm.node), f"{len(pos)} successful-training path(s) over symbolic statistics (means/deviations ≥ 0, rates in [0,1]): check() returns no violation")
 
     # ---------------- R3: integrated inspect
     sinsp = p.find_method(isys, "inspect")
